@@ -323,6 +323,10 @@ def main(tier, seed):
         except Exception as e:
             rep.violation('array:exception:%s' % type(e).__name__, 'forward driver raises %r for a result of shape %s' % (e, shp), dict(kind='array', case=meta, exc=repr(e)))
 
+    # ---------------- the tensor driver within call histories (seeded / default generator calls, callers scribbling on results in between)
+    import c15
+    c15.histories(rep, rng, tier)
+
     verdicts, logs = lib.eval_bool_cases(PID, IMPORTS, DEFS, terms, per_file=100)
     bad = 0
     for m, vd, t in zip(metas, verdicts, terms):
